@@ -19,6 +19,9 @@ coalesced with the magic or with the handshake padding, and reads that block in 
 * `magic_any_chunking`  genuine stream `pad ‖ magic ‖ data`: never an error, nothing delivered before the
                         magic, afterwards delivered ‖ decrypt(pending) = decrypt(data)
 * `stream_any_chunking` … with `data` = what the peer's `Write`s produced: delivered = written
+* `handshake_never_overreads`, `no_stall_first_read`, `coalesced_with_handshake`
+                        a flight key ‖ pad ‖ magic ‖ data in one segment: the key read takes 192 bytes,
+                        the rest stays on the socket and is delivered without further traffic
 * `read_progress`       once everything arrived every further `Read` delivers at least one byte until all is delivered
 * `too_much_padding_rejected`  no magic at an offset ≤ maxPadding and ≥ maxPadding+32 bytes arrived ⇒ the
                         next `Read` fails and the conn is closed, nothing is ever delivered
@@ -117,6 +120,26 @@ arbitrary chunks, interleaved arbitrarily with `Read` calls of arbitrary buffer 
 the magic has been found, and from then on
 `delivered ‖ decrypt(still buffered or queued ‖ F) = decrypt(data)` at the right stream positions —
 in particular the bytes that followed the magic in the same read are handed over, not lost. -/
+theorem magic_any_chunking_queued (P : Prims) (ks) (hL : P.sxor.Law ks) (c : Conn) (m pad data : Bytes)
+    (hc : Fresh c m) (hG : Genuine m pad data) (q0 : Net) (hq0 : ∀ ch ∈ q0, ch ≠ [])
+    (evs : List Ev) (F : Bytes) (harr : q0.flatten ++ arrivals evs ++ F = pad ++ m ++ data) :
+    let s := runEvs P { c := c, q := q0, outs := [], failed := none } evs
+    s.failed = none ∧ s.c.closed = false ∧
+    ((s.c.rxMagic = some m ∧ s.outs = []) ∨
+     (s.c.rxMagic = none ∧
+      s.outs.flatten ++ xorAt (ks c.rx.key c.rx.iv) s.c.rx.off (pending s.c s.q ++ F)
+        = xorAt (ks c.rx.key c.rx.iv) c.rx.off data)) := by
+  have h0 : Inv ks m pad data c.rx { c := c, q := q0, outs := [], failed := none } (arrivals evs ++ F) := by
+    refine ⟨rfl, hc.open_, hq0, rfl, rfl, Or.inl ⟨hc.magic, rfl, rfl, [], hc.buf, ?_, ?_⟩⟩
+    · simpa [List.append_assoc] using harr
+    · have := List.length_pos_iff.mpr hG.ne
+      simp; omega
+  obtain ⟨h1, h2, _, _, _, h6⟩ := inv_run P hL hG evs _ F h0
+  refine ⟨h1, h2, ?_⟩
+  rcases h6 with ⟨a1, a2, _⟩ | ⟨b1, b2⟩
+  · exact Or.inl ⟨a1, a2⟩
+  · exact Or.inr ⟨b1, b2⟩
+
 theorem magic_any_chunking (P : Prims) (ks) (hL : P.sxor.Law ks) (c : Conn) (m pad data : Bytes)
     (hc : Fresh c m) (hG : Genuine m pad data)
     (evs : List Ev) (F : Bytes) (harr : arrivals evs ++ F = pad ++ m ++ data) :
@@ -125,16 +148,8 @@ theorem magic_any_chunking (P : Prims) (ks) (hL : P.sxor.Law ks) (c : Conn) (m p
     ((s.c.rxMagic = some m ∧ s.outs = []) ∨
      (s.c.rxMagic = none ∧
       s.outs.flatten ++ xorAt (ks c.rx.key c.rx.iv) s.c.rx.off (pending s.c s.q ++ F)
-        = xorAt (ks c.rx.key c.rx.iv) c.rx.off data)) := by
-  have h0 : Inv ks m pad data c.rx { c := c, q := [], outs := [], failed := none } (arrivals evs ++ F) := by
-    refine ⟨rfl, hc.open_, by simp, rfl, rfl, Or.inl ⟨hc.magic, rfl, rfl, [], hc.buf, by simpa using harr, ?_⟩⟩
-    have := List.length_pos_iff.mpr hG.ne
-    simp; omega
-  obtain ⟨h1, h2, _, _, _, h6⟩ := inv_run P hL hG evs _ F h0
-  refine ⟨h1, h2, ?_⟩
-  rcases h6 with ⟨a1, a2, _⟩ | ⟨b1, b2⟩
-  · exact Or.inl ⟨a1, a2⟩
-  · exact Or.inr ⟨b1, b2⟩
+        = xorAt (ks c.rx.key c.rx.iv) c.rx.off data)) :=
+  magic_any_chunking_queued P ks hL c m pad data hc hG [] (by simp) evs F (by simpa using harr)
 
 /-- Corollary: once the whole stream has arrived and nothing is pending, exactly the decryption of
 `data` has been delivered. -/
@@ -220,6 +235,91 @@ theorem read_progress (P : Prims) (ks) (hL : P.sxor.Law ks) (c : Conn) (q : Net)
         simp at this; omega
       · simp only [Stream.xor]
         rw [hL, xorAt_length, List.length_take]; omega
+
+/-! ### data that arrives together with the handshake -/
+
+/-- **The handshake never over-reads** (`io.ReadFull` into a 192-byte buffer): whatever arrives with
+the peer's key — in one segment or any segmentation — the endpoint takes exactly the key; `rxBuf`
+stays empty and everything else (`pad1 ‖ pad2 ‖ magic ‖ data …`) stays *on the socket*, as non-empty
+chunks, where the first `Read`'s `findPeerMagic` (which starts with a network read) finds it. An
+implementation that parks the surplus in `rxBuf` instead does not refine this model. -/
+theorem handshake_never_overreads (P : Prims) (c : Conn) (hc : c.phase = .pubkey)
+    (hb : c.rxBuf = some []) (key rest : Bytes)
+    (hk : key.length = uniformdhSize) (cs : List Bytes) (hcs : cs.flatten = key ++ rest) :
+    (feedAll P c [] cs).1.rxBuf = some [] ∧ (feedAll P c [] cs).2.flatten = rest ∧
+    (∀ ch ∈ (feedAll P c [] cs).2, ch ≠ []) := by
+  obtain ⟨h1, h2⟩ := feedAll_key P hc key rest hk cs [] (by simpa using hcs)
+  refine ⟨?_, h2, feedAll_nonempty P cs c [] (by simp)⟩
+  rw [h1]
+  unfold afterKey
+  split
+  · exact hb
+  · unfold kdf
+    split
+    · split <;> exact hb
+    · exact hb
+    · exact hb
+
+/-- **No stall on a coalesced flight.** The peer's whole flight `pad ‖ magic ‖ data` (`data ≠ []`) is
+already queued when the first `Read` is issued — e.g. it arrived in the same segment as the key —
+and *nothing more arrives*: the `Read` does not block, it returns at least one byte of `data`. -/
+theorem no_stall_first_read (P : Prims) (ks) (hL : P.sxor.Law ks) (c : Conn) (m pad data : Bytes)
+    (hc : Fresh c m) (hG : Genuine m pad data) (q : Net) (hq : ∀ ch ∈ q, ch ≠ [])
+    (hqf : q.flatten = pad ++ m ++ data) (hd : data ≠ []) (max : Nat) (hmax : 0 < max) :
+    ∃ c' o q', read P c max q = .data c' o q' ∧ o ≠ [] ∧ o.length ≤ max := by
+  have hml := List.length_pos_iff.mpr hG.ne
+  rcases scan_genuine m pad data hG.ne hG.mlen hG.padlen hG.first (q.size + 1) [] q [] hq
+      (Nat.lt_succ_self _) (by simp [hqf]) (by simp; omega) with ⟨b', _, e2, e3⟩ | ⟨b', q', e1, e2, e3, e4⟩
+  · exfalso
+    rw [e2] at e3
+    simp only [List.nil_append, hqf, List.length_append] at e3
+    omega
+  · -- what is pending after the magic is `data`
+    have hW : b' ++ q'.flatten = pad ++ m ++ data := by rw [e2]; simp [hqf]
+    have hn : (pad ++ m).length = pad.length + m.length := List.length_append
+    have hdata : b'.drop (pad.length + m.length) ++ q'.flatten = data := by
+      have := congrArg (List.drop (pad.length + m.length)) hW
+      rw [List.drop_append_of_le_length e3, List.drop_left' hn] at this
+      exact this
+    obtain ⟨c', o, q'', r1, r2, r3⟩ := read_progress P ks hL
+      { c with rxMagic := none, rxBuf := some (b'.drop (pad.length + m.length)), peak := Nat.max c.peak b'.length, closed := false }
+      q' max hmax rfl rfl e4 (by simp only [pending, Option.getD_some]; rw [hdata]; exact hd)
+    simp only [O4.Obfs3.read, Bool.false_eq_true, ↓reduceIte] at r1
+    simp only [O4.Obfs3.read, hc.open_, Bool.false_eq_true, ↓reduceIte, hc.magic, hc.buf,
+      Option.getD_some, e1]
+    exact ⟨c', o, q'', r1, r2, r3⟩
+
+/-- **Data coalesced with the handshake is delivered.** The peer's complete flight
+`key ‖ pad ‖ magic ‖ data` reaches an endpoint that is still waiting for the key, in one segment or
+in any segmentation `cs`, and then the peer sends nothing more. The handshake takes the key
+(`handshake_never_overreads`); then the first `Read` returns data at once (`no_stall_first_read`),
+and for every further sequence of `Read`s nothing fails and
+`delivered ‖ decrypt(pending) = decrypt(data)` — no byte is lost or withheld. -/
+theorem coalesced_with_handshake (P : Prims) (ks) (hL : P.sxor.Law ks) (c : Conn) (hc : c.phase = .pubkey)
+    (key pad m data : Bytes) (hk : key.length = uniformdhSize)
+    (hF : Fresh (afterKey P c key) m) (hG : Genuine m pad data) (hd : data ≠ [])
+    (cs : List Bytes) (hcs : cs.flatten = key ++ (pad ++ m ++ data)) :
+    let c1 := (feedAll P c [] cs).1
+    let q1 := (feedAll P c [] cs).2
+    (∀ max, 0 < max → ∃ c' o q', read P c1 max q1 = .data c' o q' ∧ o ≠ [] ∧ o.length ≤ max) ∧
+    (∀ evs : List Ev, arrivals evs = [] →
+      let s := runEvs P { c := c1, q := q1, outs := [], failed := none } evs
+      s.failed = none ∧
+      (s.c.rxMagic = none →
+        s.outs.flatten ++ xorAt (ks c1.rx.key c1.rx.iv) s.c.rx.off (pending s.c s.q)
+          = xorAt (ks c1.rx.key c1.rx.iv) c1.rx.off data)) := by
+  obtain ⟨h1, h2⟩ := feedAll_key P hc key (pad ++ m ++ data) hk cs [] (by simpa using hcs)
+  have hne := feedAll_nonempty P cs c [] (by simp)
+  simp only
+  rw [h1] at *
+  refine ⟨fun max hmax => no_stall_first_read P ks hL _ m pad data hF hG _ hne h2 hd max hmax, ?_⟩
+  intro evs harr
+  obtain ⟨f1, _, f3⟩ := magic_any_chunking_queued P ks hL _ m pad data hF hG _ hne evs []
+    (by rw [h2, harr]; simp)
+  refine ⟨f1, fun hm => ?_⟩
+  rcases f3 with ⟨a1, _⟩ | ⟨_, b2⟩
+  · rw [hm] at a1; cases a1
+  · simpa using b2
 
 /-! ### over-padding and missing magic -/
 
@@ -462,6 +562,19 @@ example : demoFI.1.phase = .established ∧ demoFR.1.phase = .established ∧
     demoFI.1.tx = demoFR.1.rx ∧ demoFR.1.tx = demoFI.1.rx ∧
     demoFI.1.txMagic = demoFR.1.rxMagic ∧ demoFR.1.txMagic = demoFI.1.rxMagic ∧
     demoFI.2.flatten = [] ∧ demoFR.2.flatten = [4, 4] := by
+  decide +kernel
+
+/-- `coalesced_with_handshake` on a concrete instance: the initiator's whole flight
+`key ‖ pad1 = 4 4 ‖ (pad2 empty) ‖ magic ‖ 42 43` reaches the responder in ONE segment while it
+still waits for the key; the first `Read` delivers both data bytes, nothing stays in `rxBuf` -/
+def demoMagic : Bytes := (demoFI.1.txMagic).getD []
+def demoFlight := feedAll toyP demoR.1 [] [demoI.2 ++ demoMagic ++ xorAt (toyKs demoFI.1.tx.key demoFI.1.tx.iv) 0 [42, 43]]
+def outOf : ReadRes → Option Bytes
+  | .data _ o _ => some o
+  | _ => none
+
+example : demoMagic.length = 32 ∧ demoFlight.1.rxBuf = some [] ∧ demoFlight.2.flatten.length = 2 + 32 + 2 ∧
+    outOf (read toyP demoFlight.1 100 demoFlight.2) = some [42, 43] := by
   decide +kernel
 
 end C13
